@@ -5,10 +5,14 @@
  *   q <hash-imprint-hex> <level> <ver> <login-hex> <key-hex>
  *       the request the blocking interface sends: KSI_createSignRequest + KSI_sendSignRequest, octets handed to the transport
  *     => Q<status> [<request-hex>]
+ *   as <hash-imprint-hex> <level> <key-hex> <reply-stream-hex>
+ *       the asynchronous signing service on a scripted socket (PDU v2; the first request gets id 1): add the request, let the
+ *       service send it and read the stream, then KSI_AsyncHandle_getSignature on the handle that comes back
+ *     => A<add-status> [H<state>:<error>] [G<status> [R<signature-hex>]]
  */
-#include "common.h"
+#define VERIF_SIM_ONLY 1
+#include "exec_c13.c"
 #include <unistd.h>
-#include <ksi/ksi.h>
 #include <ksi/policy.h>
 
 static char path[64];
@@ -63,6 +67,50 @@ static void do_line(char *work, const char *orig) {
 		}
 		KSI_RequestHandle_free(handle); KSI_AggregationReq_free(req); KSI_DataHash_free(hsh); KSI_CTX_free(ctx);
 		unlink(uri + 7); free(h); free(login); free(key);
+	} else if (n >= 5 && !strcmp(w[0], "as")) {
+		KSI_CTX *ctx = NULL; KSI_AsyncService *as = NULL; KSI_AsyncHandle *h = NULL, *out = NULL, *got = NULL; KSI_DataHash *hsh = NULL;
+		size_t hl, rn, waiting = 0; unsigned char *hb = unhex(w[1], &hl), *reply = unhex(w[4], &rn); char *key = cstr_of(w[3]); int r, k;
+		static char rs[64], ss[64];
+		KSI_CTX_new(&ctx);
+		KSI_CTX_setOption(ctx, KSI_OPT_AGGR_PDU_VER, (void *)(size_t)2);
+		g_nconn = 0; g_now = 1000; g_poll_ret = 1; g_revents = POLLIN | POLLOUT; g_connect_ok = 1; g_spos = 0; g_slen = 0;
+		if (KSI_SigningAsyncService_new(ctx, &as) != KSI_OK) { printf("NEW-FAILED"); return; }
+		KSI_AsyncService_setEndpoint(as, "ksi+tcp://sim.host:1234", "anon", key);
+		KSI_AsyncService_setOption(as, KSI_ASYNC_OPT_REQUEST_CACHE_SIZE, (void *)(size_t)4);
+		if (KSI_DataHash_fromImprint(ctx, hb, hl, &hsh) != KSI_OK) printf("BAD-HASH");
+		else {
+			r = KSI_AsyncSigningHandle_new(ctx, hsh, strtoull(w[2], NULL, 10), &h);
+			if (r == KSI_OK) { r = KSI_AsyncService_addRequest(as, h); if (r != KSI_OK) KSI_AsyncHandle_free(h); }
+			else KSI_DataHash_free(hsh);
+			printf("A%d", r);
+			if (r == KSI_OK) {
+				strcpy(rs, "p"); strcpy(ss, "-"); g_rp = rs; g_sp = ss; g_stream = reply; g_slen = 0;
+				KSI_AsyncService_run(as, &out, &waiting);            /* connect + send */
+				for (k = 0; k < 3 && got == NULL; k++) {
+					strcpy(rs, "p"); strcpy(ss, "-"); g_rp = rs; g_sp = ss; g_stream = reply; g_slen = rn;
+					out = NULL;
+					KSI_AsyncService_run(as, &out, &waiting);
+					if (out != NULL) got = out;
+				}
+				if (got != NULL) {
+					int st = -1, err = 0; KSI_Signature *sig = NULL;
+					KSI_AsyncHandle_getState(got, &st); KSI_AsyncHandle_getError(got, &err);
+					printf(" H%d:%d", st, err);
+					r = KSI_AsyncHandle_getSignature(got, &sig);
+					printf(" G%d", r);
+					if (r == KSI_OK && sig != NULL) {
+						unsigned char *ser = NULL; size_t sl = 0; KSI_Signature_serialize(sig, &ser, &sl);
+						printf(" R"); puthex(stdout, ser, sl); KSI_free(ser);
+					} else if (sig != NULL) printf(" RESULT-WITH-ERROR");
+					KSI_Signature_free(sig);
+					KSI_AsyncHandle_free(got);
+				} else printf(" H-");
+			}
+		}
+		for (k = 0; k < g_nconn; k++) free(g_conn[k]);
+		g_nconn = 0;
+		KSI_AsyncService_free(as); KSI_CTX_free(ctx);
+		free(hb); free(reply); free(key);
 	} else printf("BAD-OP");
 }
 
